@@ -176,7 +176,16 @@ def main(argv=None):
             body = json.load(f)
         case = from_jsonable(body['case'])
         try:
-            mod.replay(case, body.get('spec'))
+            if isinstance(case, dict) and set(case) == {'probe'}:
+                # the failing "case" is one of the module's deterministic probes
+                fns = [fn for key, what, fn in getattr(mod, 'PROBES', []) if key == case['probe']]
+                if not fns:
+                    print('HARNESS-ERROR property=%s (no probe %r)' % (pid, case['probe']))
+                    return 2
+                with common.case_watchdog(getattr(mod, 'PROBE_TIMEOUT', 300), 'probe %s' % case['probe']):
+                    fns[0]()
+            else:
+                mod.replay(case, body.get('spec'))
         except Violation as v:
             print('reproduced: %s' % v)
             print('VIOLATION property=%s replay=%s' % (pid, replay))
